@@ -91,7 +91,11 @@ func staticHeapKey(addr ssa.Value, escaping map[*ssa.Alloc]bool) string {
 		switch x := addr.(type) {
 		case *ssa.Alloc:
 			if escaping[x] {
-				return "obj:" + types.TypeString(x.Type().Underlying().(*types.Pointer).Elem(), nil)
+				et := x.Type().Underlying().(*types.Pointer).Elem()
+				if _, isStruct := et.Underlying().(*types.Struct); !isStruct {
+					return "ptr:" + types.TypeString(et, nil)
+				}
+				return "obj:" + types.TypeString(et, nil)
 			}
 			return ""
 		case *ssa.FieldAddr:
@@ -136,6 +140,60 @@ func staticHeapKey(addr ssa.Value, escaping map[*ssa.Alloc]bool) string {
 	}
 }
 
+type monoCell struct {
+	al    *ssa.Alloc
+	up    bool
+	entry string
+}
+
+// monotoneCells finds the non-escaping integer locals that the loop body only ever changes by adding (subtracting) a
+// positive constant: x++, x += 2, x--.
+func (g *Gen) monotoneCells(body map[*ssa.BasicBlock]bool) []monoCell {
+	dir := map[*ssa.Alloc]int{} // 1 up, -1 down, 2 mixed/other
+	for b := range body {
+		for _, in := range b.Instrs {
+			s, ok := in.(*ssa.Store)
+			if !ok {
+				continue
+			}
+			al, ok := s.Addr.(*ssa.Alloc)
+			if !ok || g.escaping[al] {
+				continue
+			}
+			et := al.Type().Underlying().(*types.Pointer).Elem()
+			if !isInt(et) {
+				continue
+			}
+			d := 2
+			if bo, ok := s.Val.(*ssa.BinOp); ok && (bo.Op == token.ADD || bo.Op == token.SUB) {
+				if ld, ok := bo.X.(*ssa.UnOp); ok && ld.Op == token.MUL && ld.X == al {
+					if c, ok := bo.Y.(*ssa.Const); ok && c.Value != nil && c.Value.Kind() == constant.Int {
+						if v, ok := constant.Int64Val(c.Value); ok && v > 0 {
+							if bo.Op == token.ADD {
+								d = 1
+							} else {
+								d = -1
+							}
+						}
+					}
+				}
+			}
+			if prev, seen := dir[al]; seen && prev != d {
+				d = 2
+			}
+			dir[al] = d
+		}
+	}
+	var out []monoCell
+	for al, d := range dir {
+		if d == 1 || d == -1 {
+			out = append(out, monoCell{al: al, up: d == 1})
+		}
+	}
+	sort.Slice(out, func(i, j int) bool { return out[i].al.Pos() < out[j].al.Pos() })
+	return out
+}
+
 type headInfo struct {
 	ord    int
 	invs   []Clause
@@ -144,6 +202,8 @@ type headInfo struct {
 	ri     *ssa.Alloc
 	state  *State // head state after havoc+assume (before head instructions)
 	autoRecv ssa.Value // receiver of the Dispenser.Next*-style call that drives this loop (automatic variant), or nil
+	monoCells []monoCell // int cells only ever incremented (decremented) in the loop: implicit invariant cell >= (<=) its value at loop entry
+	autoEntry [][2]string // (dispenser ref, cursor value at loop entry): implicit invariant "the cursor never moves back"
 }
 
 func (g *Gen) run() {
@@ -377,6 +437,16 @@ func (g *Gen) run() {
 						g.w.assume(fmt.Sprintf("(not (= %s 0))", g.val(prm, st).S))
 					}
 				}
+				// function literals: captured pointer variables are non-nil when the literal runs (listed assumption of the sweep)
+				for _, fv := range f.FreeVars {
+					if pp, ok := fv.Type().Underlying().(*types.Pointer); ok {
+						if _, isPtr := pp.Elem().Underlying().(*types.Pointer); isPtr {
+							a := g.resolveAddr(fv, st)
+							v := g.w.loadAddr(a, st, pp.Elem())
+							g.w.assume(fmt.Sprintf("(not (= %s 0))", v.S))
+						}
+					}
+				}
 			}
 			for gname := range ghostInts {
 				g.w.heapArr(st, "ghost:"+gname, "Int")
@@ -449,6 +519,19 @@ func (g *Gen) run() {
 			if ls, ts := frameInvs(st); len(ls) > 0 {
 				for i := range ls {
 					g.addObNoAssume("inv_entry", fmt.Sprintf("loop%d_entry/%s", hi.ord, ls[i]), b.Instrs[0].Pos(), st, ts[i])
+				}
+			}
+			for _, mc := range g.monotoneCells(body) {
+				if v, ok := st.cells[mc.al]; ok && isUnsigned(mc.al.Type().Underlying().(*types.Pointer).Elem()) == false {
+					mc.entry = v.S
+					hi.monoCells = append(hi.monoCells, mc)
+				}
+			}
+			if autoDispenserVariants {
+				for _, ref := range g.dispenserRefs(st) {
+					if c, ok := g.dispenserCursor(ref, st); ok {
+						hi.autoEntry = append(hi.autoEntry, [2]string{ref, c})
+					}
 				}
 			}
 			// 2. havoc
@@ -564,6 +647,20 @@ func (g *Gen) run() {
 					w.assume(fmt.Sprintf("(=> %s %s)", st.pc, t))
 				}
 			}
+			for _, mc := range hi.monoCells {
+				// sound without an obligation: every store to the cell inside the loop adds (subtracts) a positive constant,
+				// and signed overflow is excluded by the arithmetic model (listed)
+				op := ">="
+				if !mc.up {
+					op = "<="
+				}
+				w.assume(fmt.Sprintf("(=> %s (%s %s %s))", st.pc, op, st.cells[mc.al].S, mc.entry))
+			}
+			for _, ae := range hi.autoEntry {
+				if c, ok := g.dispenserCursor(ae[0], st); ok {
+					w.assume(fmt.Sprintf("(=> %s (>= %s %s))", st.pc, c, ae[1]))
+				}
+			}
 			if g.ctr != nil {
 				for _, u := range g.ctr.LoopUse[hi.ord] {
 					g.useAxiom(u, st, b)
@@ -629,6 +726,11 @@ func (g *Gen) run() {
 			if ls, ts := frameInvs(bst); len(ls) > 0 {
 				for i := range ls {
 					g.addObNoAssume("inv_back", fmt.Sprintf("loop%d_preserved/%s", hi.ord, ls[i]), pos, bst, ts[i])
+				}
+			}
+			for k, ae := range hi.autoEntry {
+				if c, ok := g.dispenserCursor(ae[0], bst); ok {
+					g.addObNoAssume("inv_back", fmt.Sprintf("loop%d_preserved/auto_cursor_monotone%d", hi.ord, k+1), pos, bst, fmt.Sprintf("(>= %s %s)", c, ae[1]))
 				}
 			}
 			if hi.autoRecv != nil && !hi.hasDec {
@@ -942,6 +1044,44 @@ var dispenserDrivers = map[string]bool{
 	"(*github.com/tmpim/casket/casketfile.Dispenser).NextLine":         true,
 	"(*github.com/tmpim/casket/casketfile.Dispenser).NextBlock":        true,
 	"(*github.com/tmpim/casket/casketfile.Dispenser).NextBlockNesting": true,
+}
+
+// dispenserRefs: the token dispensers this function works on, as terms available at any program point: parameters of
+// type *Dispenser, and the Dispenser embedded by value in a parameter's struct (c *casket.Controller).
+func (g *Gen) dispenserRefs(st *State) []string {
+	var out []string
+	for _, prm := range g.f.Params {
+		pt, ok := prm.Type().Underlying().(*types.Pointer)
+		if !ok {
+			continue
+		}
+		if types.TypeString(pt.Elem(), nil) == "github.com/tmpim/casket/casketfile.Dispenser" {
+			out = append(out, g.val(prm, st).S)
+			continue
+		}
+		if stt, ok := pt.Elem().Underlying().(*types.Struct); ok {
+			for i := 0; i < stt.NumFields(); i++ {
+				if stt.Field(i).Embedded() && types.TypeString(stt.Field(i).Type(), nil) == "github.com/tmpim/casket/casketfile.Dispenser" {
+					registerStruct(stt.Field(i).Type())
+					out = append(out, g.w.subRef(pt.Elem(), i, g.val(prm, st)).S)
+				}
+			}
+		}
+	}
+	return out
+}
+
+func (g *Gen) dispenserCursor(ref string, st *State) (string, bool) {
+	for k, h := range st.heap {
+		ts, i, ok := fldParts(k)
+		if !ok || ts != "github.com/tmpim/casket/casketfile.Dispenser" {
+			continue
+		}
+		if stt := structRegistry[ts]; stt != nil && i < stt.NumFields() && stt.Field(i).Name() == "cursor" {
+			return fmt.Sprintf("(select %s %s)", h.S, ref), true
+		}
+	}
+	return "", false
 }
 
 // dispenserMeasure is len(d.tokens) - d.cursor for the Dispenser at ref in state st.
